@@ -25,6 +25,10 @@ Proof. exact rules_sorted_by_key_ok. Qed.
 Theorem C03_current_source_set_constants_canonical : setconst_canonical = Some true.
 Proof. exact setconst_canonical_ok. Qed.
 
+(** ... and does not widen a shared package scope while visiting (which would make the rule set depend on the visiting order) *)
+Theorem C03_current_source_scope_not_order_dependent : scope_follows_memento_fn = Some true.
+Proof. exact scope_follows_memento_fn_ok. Qed.
+
 Example C03_witness :
   let mk k c refs := {| s_kind := k; s_code := c; s_defaults := 0; s_refs := refs |} in
   let p := table [(0, mk (SMemento None) 10 [1; 2; 3]); (1, mk (SPlain true) 11 [2]); (2, mk (SMemento None) 12 [0]); (3, mk (SVar (Some 7)) 0 [])] in
